@@ -1945,11 +1945,57 @@ def lean_string_list(xs: List[str], indent: str = "  ") -> str:
     return "[" + (",\n" + indent).join(lstr(x) for x in xs) + "]"
 
 
+def typehint_simple_arms() -> List[Tuple[List[str], str]]:
+    """the leading arms of `get_typehint_validator_base` that test the annotation's identity (directly or through one
+    of the two `annotation_is_naked_*` helpers) and return a constructor call without reference to the annotation:
+    [(names the annotation is compared with, the returned expression)]"""
+    tree = ast.parse(open(os.path.join(PKG, "typehints.py")).read())
+    fns = {n.name: n for n in tree.body if isinstance(n, ast.FunctionDef)}
+    helpers: Dict[str, List[str]] = {}
+    for hn in ("annotation_is_naked_tuple", "annotation_is_naked_list"):
+        h = fns.get(hn)
+        if h is not None and len(h.body) == 1 and isinstance(h.body[0], ast.Return):
+            names = _is_names(h.body[0].value, "annotation")
+            if names is not None:
+                helpers[hn] = names
+    f = fns.get("get_typehint_validator_base")
+    out: List[Tuple[List[str], str]] = []
+    body = [b for b in (f.body if f is not None else []) if not (isinstance(b, ast.Expr) and isinstance(b.value, ast.Constant))]
+    node = body[0] if len(body) == 1 else None
+    while isinstance(node, ast.If):
+        t = node.test
+        names = _is_names(t, "annotation")
+        if names is None and isinstance(t, ast.Call) and isinstance(t.func, ast.Name) and t.func.id in helpers \
+                and [ast.unparse(a) for a in t.args] == ["annotation"]:
+            names = helpers[t.func.id]
+        if names is None or len(node.body) != 1 or not isinstance(node.body[0], ast.Return) \
+                or "annotation" in ast.unparse(node.body[0]):
+            break
+        out.append((names, ast.unparse(node.body[0].value)))
+        node = node.orelse[0] if len(node.orelse) == 1 else None
+    return out
+
+
+def _is_names(e: ast.AST, var: str):
+    """`var is A` / `var is A or var is B …` -> [A, B, …] (source text of the right-hand sides); else None"""
+    parts = e.values if isinstance(e, ast.BoolOp) and isinstance(e.op, ast.Or) else [e]
+    names = []
+    for p in parts:
+        if not (isinstance(p, ast.Compare) and len(p.ops) == 1 and isinstance(p.ops[0], ast.Is)
+                and ast.unparse(p.left) == var):
+            return None
+        names.append(ast.unparse(p.comparators[0]))
+    return names
+
+
 def render_pins() -> str:
     lines = ["/- GENERATED by harness/pysrc.py from the current source of /repo/koda_validate — do not edit -/", "",
              "namespace Koda.Src", ""]
     for group in PIN_GROUPS:
         lines += [f"def {group} : List String := {lean_string_list(collect_pins(group))}", ""]
+    lines += ["/-- the identity-tested arms of `get_typehint_validator_base`: (what the annotation is compared with, what is returned) -/",
+              "def typehintSimpleArms : List (List String × String) := [" +
+              ",\n  ".join("([" + ", ".join(lstr(n) for n in ns) + "], " + lstr(r) + ")" for ns, r in typehint_simple_arms()) + "]", ""]
     lines += ["end Koda.Src", ""]
     return "\n".join(lines)
 
